@@ -185,6 +185,11 @@ func specialCases(w *world, check string) []kase {
 		deltas := []int{+1, -1}
 		if w.sc.Proto == "frost-refresh" {
 			deltas = append(deltas, 0) // 0: same degree, constant 1 (a refresh polynomial must vanish at 0)
+			// 99: the zero polynomial announced in the form WITH a constant coefficient (t+1 coefficients,
+			// all the identity: the encoding leaves the coefficient list out, so the decoder's pre-filled
+			// identities stay), all shares 0.  Constant and degree are what a refresh expects and every
+			// share verifies, but the form differs from the honest parties' (t coefficients, no constant).
+			deltas = append(deltas, 99)
 		}
 		for _, delta := range deltas {
 			d, delta := d, delta
@@ -192,6 +197,9 @@ func specialCases(w *world, check string) []kase {
 			name := fmt.Sprintf("dealer-polynomial-degree%+d-consistent-shares", delta)
 			if delta == 0 {
 				name = "dealer-refresh-polynomial-constant=1-consistent-shares"
+			}
+			if delta == 99 {
+				name = "dealer-refresh-identity-polynomial-in-full-form-zero-shares"
 			}
 			slot := faults.Slot{From: d, Round: rnd, Broadcast: true}
 			f := faults.MessageFault(slot, name, "replace", func(m *protocol.Message) *protocol.Message {
@@ -219,7 +227,11 @@ func specialCases(w *world, check string) []kase {
 				if !ok {
 					return false
 				}
-				q := withDegree(pv.Interface().(*polynomial.Polynomial), delta)
+				dd := delta
+				if dd == 99 {
+					dd = 0
+				}
+				q := withDegree(pv.Interface().(*polynomial.Polynomial), dd)
 				if q == nil {
 					return false
 				}
@@ -230,6 +242,16 @@ func specialCases(w *world, check string) []kase {
 				}
 				pv.Set(reflect.ValueOf(q))
 				phi, _ = polynomial.NewPolynomialExponent(q).MarshalBinary()
+				if delta == 99 {
+					g := curve.Secp256k1{}
+					cs := coefficients(q)
+					for i := 0; i < cs.Len(); i++ {
+						var zero curve.Scalar = g.NewScalar()
+						cs.Index(i).Set(reflect.ValueOf(&zero).Elem())
+					}
+					rest, _ := cbor.Marshal(map[string]interface{}{"IsConstant": false})
+					phi = append([]byte{0, 0, 0, byte(cs.Len())}, rest...)
+				}
 				// the deviator's own copy of its broadcast (which enters its echo hash) must match what it sends
 				faults.RewriteOwnBroadcast(h, rnd, d, func(data []byte) []byte {
 					tree, err := faults.Decode(data)
